@@ -219,6 +219,18 @@ FAMILIES = [
     (["S", "L", "E", "B", "O"], ['","', "b", '"?"'],
      [("S", ["L"], "normal", None), ("L", ["L", '","', "E"], "normal", "N"), ("L", ["E"], "normal", "N"),
       ("E", ["B", "O"], "normal", "N"), ("B", ["b"], "normal", "N"), ("O", ['"?"'], "normal", "N"), ("O", [], "empty", None)]),
+    # 12: tails whose spellings coincide when concatenated ( "<" "=" / "<=" ;  a b / ab ), after the same nonterminal: conflict-free
+    (["S", "Old", "New", "Third", "B", "C"], ['"<"', '"="', '"<="', '"x"', '"y"', "a", "b", "ab"],
+     [("S", ["Old"], "normal", None), ("S", ["New"], "normal", None), ("S", ["Third"], "normal", None),
+      ("Old", ["B", '"<"', '"="'], "normal", "N"), ("New", ["B", '"<="'], "normal", "N"),
+      ("Third", ["C", "a", "b"], "normal", "N"), ("Third", ["C", "ab"], "normal", "N"),
+      ("B", ['"x"'], "normal", "N"), ("C", ['"y"'], "normal", "N")]),
+    # 13: the same with a reduce/reduce conflict whose earliest competitor gets its look-ahead from the second of the two tails
+    (["S", "Old", "New", "Bound", "Desc", "Extra"], ['"<"', '"="', '"<="', '"x"', '"y"', '"z"'],
+     [("S", ["Old"], "normal", None), ("S", ["New"], "normal", None), ("S", ["Desc", '"<="', '"y"'], "normal", "N"),
+      ("S", ["Extra", '"<="', '"z"'], "normal", "N"),
+      ("Old", ["Bound", '"<"', '"="'], "normal", "N"), ("New", ["Bound", '"<="'], "normal", "N"),
+      ("Bound", ['"x"'], "normal", "N"), ("Desc", ['"x"'], "normal", "N"), ("Extra", ['"x"'], "normal", "N")]),
 ]
 
 
